@@ -25,7 +25,7 @@ use sched::{Exec, Outcome, Strategy};
 #[global_allocator]
 static GLOBAL: alloc::QAlloc = alloc::QAlloc;
 
-#[derive(Deserialize, Clone, Debug)]
+#[derive(Deserialize, Clone, Debug, Default)]
 pub struct HasherSpec {
     #[serde(default)]
     pub kind: String,
@@ -43,6 +43,7 @@ pub struct Job {
     /// "thread": one guard per thread program; "op": one guard per operation
     #[serde(default)]
     pub scope: String,
+    #[serde(default)]
     pub hasher: HasherSpec,
     #[serde(default)]
     pub cap: usize,
@@ -127,9 +128,16 @@ fn observe(c: &Coll, h: &H, universe: &[u32], with_snap: bool) -> Value {
                     json!([k, r.map(|k| k.tag).unwrap_or(0), r.is_some() as u8])
                 })
                 .collect();
+            let snap = if with_snap {
+                let mg = s.verif_map().guard();
+                let sn = s.verif_map().verif_snapshot(&mg);
+                snap::project(&sn, h, &snap::unit_uid, false)
+            } else {
+                Value::Null
+            };
             json!({"len": s.len(), "empty": s.is_empty() as u8,
                    "items": items.iter().map(|(k, t, v)| json!([k, t, v])).collect::<Vec<_>>(),
-                   "gets": gets, "snap": Value::Null})
+                   "gets": gets, "snap": snap})
         }
     })
 }
@@ -180,6 +188,13 @@ fn run_program(
                     lg.log(json!({"e": "genter", "t": tid, "g": gid}));
                     sess = Some(MapSession::new(map, job.pin, foreign));
                 }
+                if op.op == "obs" {
+                    // explicit observation point (quiescent by construction in sequential programs)
+                    let hh = H(hash_mode(&job.hasher));
+                    let o = observe(coll, &hh, &job.finals, true);
+                    lg.log(json!({"e": "obs", "t": tid, "i": i, "o": o}));
+                    continue;
+                }
                 lg.log(call_event(tid, i, op));
                 let r = sess.as_mut().unwrap().run(op, i, &lg);
                 lg.log(ret_event(tid, i, r));
@@ -216,7 +231,7 @@ fn run_program(
                 let r = sess.as_mut().unwrap().run(op, i, &lg);
                 lg.log(ret_event(tid, i, r));
                 if let Some(h) = sequential_obs {
-                    let o = observe(coll, h, &job.finals, false);
+                    let o = observe(coll, h, &job.finals, job.rec.iter().any(|r| r == "snap"));
                     lg.log(json!({"e": "obs", "t": tid, "i": i, "o": o}));
                 }
                 if per_op {
